@@ -11,14 +11,33 @@ Definition order_keys (osch : schema) (order : list (expr * (bool * bool))) : op
                 | _, _ => None
                 end) (Some []) order.
 
+(* sort keys that are expressions over the output columns (ORDER BY b - a): their values are appended to every row of the
+   reference and of the candidate as extra columns, which then serve as keys.  None: a key is not an output column and cannot be
+   computed from the output columns (the order is then not checked). *)
+Definition key_fuel : nat := 20.
+Definition key_val (osch : schema) (rw : row) (e : expr) : val := eval_e key_fuel (mkCtx [] [] [] [] []) osch rw None e.
+Definition extend (osch : schema) (order : list (expr * (bool * bool))) (r : rel) : rel :=
+  map (fun rw => rw ++ map (fun o => key_val osch rw (fst o)) order) r.
+Definition is_err (v : val) : bool := match v with VErr => true | _ => false end.
+Definition computed_keys (osch : schema) (order : list (expr * (bool * bool))) (ref got : rel) : option (list (nat * (bool * bool))) :=
+  let w := length osch in
+  if forallb (fun rw => Nat.eqb (length rw) w && negb (existsb (fun o => is_err (key_val osch rw (fst o))) order)) (ref ++ got)
+  then Some (snd (fold_left (fun acc o => (S (fst acc), snd acc ++ [(fst acc, snd o)])) order (w, [])))
+  else None.
+
 (* verdict: 0 acceptable, 1 NOT acceptable, 2 reference outside the evaluator, 3 candidate outside the evaluator;
    the flag tells whether the order of the rows could be checked *)
 Definition verdict (ref got : frame) (order : list (expr * (bool * bool))) (limit offset : option nat) : nat * bool :=
   if frame_err ref then (2, false) else
   if frame_err got then (3, false) else
-  let keys := order_keys (fst ref) order in
-  let ok := answer_ok (snd ref) (match keys with Some k => k | None => [] end) limit offset (snd got) in
-  (if ok then 0 else 1, match keys with Some _ => true | None => false end).
+  match order_keys (fst ref) order with
+  | Some k => ((if answer_ok (snd ref) k limit offset (snd got) then 0 else 1), true)
+  | None =>
+      match computed_keys (fst ref) order (snd ref) (snd got) with
+      | Some k => ((if answer_ok (extend (fst ref) order (snd ref)) k limit offset (extend (fst ref) order (snd got)) then 0 else 1), true)
+      | None => ((if answer_ok (snd ref) [] limit offset (snd got) then 0 else 1), false)
+      end
+  end.
 
 Definition judge_plan (fuel : nat) db (q_full : query) order limit offset (plan : list pstep) : nat * bool :=
   verdict (eval_top fuel db q_full) (exec_plan fuel db plan) order limit offset.
